@@ -96,6 +96,19 @@ theorem near_px (eps : Rat) (a b : List (List (List Rat))) (h : Near eps a b) (i
   have := h5 r a[i][j][r] y (List.getElem?_eq_getElem hr) hyb
   simpa [absRat_eq_abs] using this
 
+theorem near_refl (eps : Rat) (heps : 0 ≤ eps) (a : List (List (List Rat))) : Near eps a a := by
+  refine ⟨rfl, fun i la lb ha hb => ?_⟩
+  rw [ha] at hb
+  cases hb
+  refine ⟨rfl, fun j ca cb hca hcb => ?_⟩
+  rw [hca] at hcb
+  cases hcb
+  refine ⟨rfl, fun r x y hx hy => ?_⟩
+  rw [hx] at hy
+  cases hy
+  simp only [sub_self, absRat_eq_abs, abs_zero]
+  exact mul_nonneg heps (abs_nonneg _)
+
 theorem near_shape (eps : Rat) (a b : List (List (List Rat))) (h : Near eps a b) :
     a.length = b.length ∧ ∀ (i : Nat) la lb, a[i]? = some la → b[i]? = some lb →
       la.length = lb.length ∧ ∀ (j : Nat) ca cb, la[j]? = some ca → lb[j]? = some cb → ca.length = cb.length :=
